@@ -44,6 +44,10 @@ def isName (c : Char) : Bool :=
     (c.toNat ≤ 0xFFFF && (inTable Generated.nameFirst c.toNat || inTable Generated.nameSecond c.toNat)
       || Generated.starIsNameChar && c == '*')
 
+/-- `isNameStart`: the first character of the local part after `prefix:` -/
+def isNameStart (c : Char) : Bool :=
+  c != ':' && c.toNat ≤ 0xFFFF && inTable Generated.nameFirst c.toNat
+
 /-- `unicode.IsSpace` -/
 def isSpace (c : Char) : Bool :=
   let n := c.toNat
@@ -83,8 +87,13 @@ inductive ScanErr
   | invalidToken | invalidQName | unclosedString | unknownItem | badNumber | unmodelled
   deriving DecidableEq, Repr, Inhabited
 
+/-- `scanName`.  The Go code counts the byte width of the terminating character into the slice
+length minus one, so a multi-byte terminator leaks its leading bytes into the name (an invalid
+UTF-8 tail).  The model marks that with U+FFFD: the name then is no known axis/function/node-type
+name, which is all that the rest of the compiler can observe of it. -/
 def Scan.scanName (s : Scan) : String × Scan :=
   let (run, c, r) := takeRun isName s.curr s.rest
+  let run := if c.toNat ≥ 0x80 then run ++ ['\uFFFD'] else run
   (String.ofList run, { s with curr := c, rest := r })
 
 /-- characters up to the closing quote `q`; `none` when the text ends first -/
@@ -94,6 +103,14 @@ def scanStringAux (q : Char) : List Char → Option (List Char × List Char)
     match scanStringAux q cs with
     | some (str, rest) => some (c :: str, rest)
     | none => none
+
+/-- `strconv.ParseFloat` reports a range error (which `scanNumber` turns into a panic) when the
+decimal numeral rounds to +Inf: value ≥ (2^54 − 1)·2^970, the midpoint between the largest
+double and 2^1024.  `ip`/`fp` are the integer and fraction digits. -/
+def numOverflows (ip fp : List Char) : Bool :=
+  let digit (c : Char) : Nat := c.toNat - 48
+  let n := (ip ++ fp).foldl (fun a c => a * 10 + digit c) 0
+  ip.length > 300 && n ≥ (2^54 - 1) * 2^970 * 10^fp.length
 
 /-- one `nextItem` call -/
 def Scan.nextItem (s0 : Scan) : Except ScanErr Scan :=
@@ -144,7 +161,7 @@ def Scan.nextItem (s0 : Scan) : Except ScanErr Scan :=
         | [] => (['.'], '\x00', [])
         | x :: xs => let (run, c', r') := takeRun isDigit x xs; ('.' :: run, c', r')
       else ([], c1, r1)
-    if (ip ++ fp).all (fun ch => isAsciiDigit ch || ch == '.') then
+    if (ip ++ fp).all (fun ch => isAsciiDigit ch || ch == '.') && !numOverflows ip (fp.drop 1) then
       .ok { s with typ := .number, numlex := String.ofList (ip ++ fp), curr := c2, rest := r2 }
     else .error .badNumber
   else if isName c then
@@ -153,17 +170,15 @@ def Scan.nextItem (s0 : Scan) : Except ScanErr Scan :=
     let fin (s : Scan) : Except ScanErr Scan :=
       let s' := s.skipSpace
       .ok { s' with canBeFunc := s'.curr == '(' }
-    if s1.curr.toNat ≥ 0x80 && !isName s1.curr then .error .unmodelled
-    else if s1.curr == ':' then
+    if s1.curr == ':' then
       let s2 := adv s1
       if s2.curr == ':' then fin (adv { s2 with typ := .axe })
       else
         let s2 := { s2 with pfx := nm }
         if s2.curr == '*' then fin (adv { s2 with name := "*" })
-        else if isName s2.curr then
+        else if isNameStart s2.curr then
           let (nm2, s3) := s2.scanName
-          if s3.curr.toNat ≥ 0x80 && !isName s3.curr then .error .unmodelled
-          else fin { s3 with name := nm2 }
+          fin { s3 with name := nm2 }
         else .error .invalidQName
     else
       let s2 := s1.skipSpace
